@@ -3,10 +3,20 @@
 import json, os, sys
 HERE = os.path.dirname(os.path.dirname(os.path.abspath(__file__)))
 pid, wt, out, n = sys.argv[1:5]
+round2 = len(sys.argv) > 5
 props = {json.loads(l)['id']: json.loads(l) for l in open(os.path.join(HERE, 'properties.jsonl'))}
 p = props[pid]
 t = open(os.path.join(HERE, 'tools', 'breaker_prompt.md')).read()
 for k, v in (('{WT}', wt), ('{OUT}', out), ('{ID}', pid), ('{TITLE}', p['title']),
              ('{STATEMENT}', p['statement']), ('{QUANT}', p['quantifier']['text']), ('{N}', n), ('{i}', '<i>')):
     t = t.replace(k, v)
+if round2:
+    t = t.replace('YOUR TASK:', '''NOTE: an earlier batch of seeded bugs for this property went for the most direct mutations of the central
+functions. This batch must be HARDER to notice: prefer effects that depend on history or hidden state (a second
+render, another template or namespace used earlier in the same process, a cache), on exceptional paths, on rarely
+used option combinations or option spellings, on unusual but legal value/container types, on the less common of the
+surface syntaxes, or on an interaction between two features. Each change must still be a clear violation of the
+property as stated (not of something the statement leaves open).
+
+YOUR TASK:''', 1)
 print(t)
